@@ -67,6 +67,11 @@ def build(desc):
             "spacing_ms": (1000,) if (same_times or boundary) else (1, 40, 250, 1000, 5000, 30000),
             "p_removal": 0.1,
             "market_time_offsets": (4_000, 6_000, 9_000, 30_000) if boundary else (30_000, 600_000),
+            # the off time is moved mid-file by a definition delta: seconds_to_start is measured against the current definition
+            # a recording may end before the market closes (and then yield nothing at all under a filter)
+            "close": rng.random() > 0.15,
+            "p_reschedule": 0.35,
+            "reschedule_ms": (-3_000, -1_000, 2_000, 4_000) if boundary else (-20_000, -5_000, 5_000, 60_000, 500_000),
         }
         d = G.Director(rng, mid, mp, event_id=ev, t0=G.T0 + (0 if (ev_proc or same_times) else m * 3_600_000))
         mf = d.run()
@@ -178,6 +183,16 @@ def run_determinism(desc, out):
         for mid, sn in snaps.items():
             s["actions"] += simgen.gen_script(rng, sn, mid, s["name"] + "x", {"n_orders": (3, 8), "types": ("LIMIT",), "modes": ("join", "rest", "rest", "at"), "p_cancel": 0.05, "p_replace": 0.05, "sizes": (5.0, 25.5, 100.0)}, ref_prefix="x%s_" % mid[-2:])
         s["actions"].sort(key=lambda a: a["at"])
+    slow = desc["idx"] % 2 == 1
+    if slow:
+        # cool-downs are measured on the simulated clock: trades carry reset periods shorter than any gap between updates of the
+        # file would need in wall-clock terms, and one of the fresh processes is slowed down (sleep before every update)
+        rs, ps = rng.choice(((0.03, 0.0), (0.0, 0.03), (0.03, 0.03), (2.0, 0.5)))
+        for s in case["strategies"]:
+            s["max_live_trade_count"] = 1e6
+            for a in s["actions"]:
+                if a["op"] == "place":
+                    a["reset_seconds"], a["place_reset_seconds"] = rs, ps
     tmp = tempfile.mkdtemp(prefix="vfc14_")
     try:
         path = os.path.join(tmp, "case.json")
@@ -186,8 +201,8 @@ def run_determinism(desc, out):
         results = []
         settings = [("0", 0), ("1", 3.2e8), ("random", -1.7e8), ("12345", 86400 * 365.25 * 20)][: desc["runs"]]
         procs = []
-        for hs, shift in settings:
-            env = dict(os.environ, PYTHONHASHSEED=hs, VERIF_CLOCK_SHIFT=str(shift), PYTHONDONTWRITEBYTECODE="1")
+        for j, (hs, shift) in enumerate(settings):
+            env = dict(os.environ, PYTHONHASHSEED=hs, VERIF_CLOCK_SHIFT=str(shift), PYTHONDONTWRITEBYTECODE="1", VERIF_SLOW="0.04" if (slow and j == 1) else "0")
             procs.append(subprocess.Popen([sys.executable, "-m", "vf.c14child", path], env=env, stdout=subprocess.PIPE, stderr=subprocess.PIPE, text=True))
         for p in procs:
             try:
